@@ -117,9 +117,40 @@ CLAIMED["C17"] = {
     "technique": "TLA+ model checking (safety + liveness) of the termination protocol and the pipe, TLC-enumerated plans, gate-controlled and free-running executions of the real code validated against the P-spec by TLC",
 }
 
+CLAIMED["C18"] = {
+    "level": "model_checking",
+    "text": ("DumpLoad.tla models the structural machine of Dump followed by Load (keyset batches, shard writer, verification pass, node "
+             "batches with order-correlated ids, id resolver, one batch per edge fragment) and is model-checked for every configuration "
+             "with <=3 nodes, <=2 relationships, shard/batch 1..3 and every corrupt fragment position (fragments partition the ids in "
+             "order; nothing written before everything is verified; loaded graph isomorphic under the id map). On the real code TLC-"
+             "enumerated configurations run Dump -> Load -> Verify on the fake database for three codecs; the directory projection, the "
+             "source and loaded entity records (matched through a marker property: kinds, JSON-canonical property maps, endpoints) and "
+             "the Verify outcomes (unmodified and after three metric-changing edits) are validated by TLC."),
+    "design_ref": "DESIGN.md 4/C18",
+    "note": ("Structure is model-checked; value-level fidelity is only explored over a fixed value catalogue (nested lists/maps, unicode, "
+             "floats, 2^53-1) - encode/decode fidelity is outside what a TLA+ model adds. Fake database instead of PostgreSQL/Neo4j. One "
+             "recorded finding (integers beyond 2^53 lose precision on load) stays open."),
+    "technique": "TLA+ model checking of the dump/load structural machine over all small configurations + TLC trace validation of real Dump/Load/Verify runs",
+}
+CLAIMED["C20"] = {
+    "level": "fault_enumeration",
+    "text": ("Real artefacts (dump directory, tar, HPKE-encrypted archive, key files) are built per codec and every single-byte flip (thorough: "
+             "every offset; quick: every 11th), truncations, appended data, removed / swapped / substituted fragments, structural manifest "
+             "edits, dropped / duplicated / swapped / foreign archive frames, wrong and damaged keys and 17 hostile tar streams are fed to "
+             "Load(dir), in-place unpack, staged Unpack, Load(archive) and the plain tar extractor. The class of each tampered byte is fixed "
+             "by what protects it (hash, AEAD, consumed manifest field: strict; otherwise lenient); TLC validates every attack event against "
+             "the spec rule (strict => error; error => zero database writes and nothing new in a staged destination; lenient and accepted "
+             "=> identical result; never a file outside the output directory). DumpLoad.tla proves the pipeline order (verify everything "
+             "before the first write) for all small configurations."),
+    "design_ref": "DESIGN.md 4/C20",
+    "note": ("Single-fault mutations of small artefacts (0.5-10 kB); manifest bytes that nothing authenticates and the loader does not consume "
+             "are lenient by construction; in-place unpack APIs may leave partial output inside their own output directory."),
+    "technique": "exhaustive single-fault enumeration over real artefacts with a TLA+ spec as the verdict oracle (trace validation) + model-checked pipeline order",
+}
+
 _NB = "not built yet in this round (design in DESIGN.md section 4)"
 NOT_APPLICABLE = {
     "C01": "needs the emitted SQL executed on PostgreSQL; no SQL engine exists in this sandbox and a TLA+ model of PostgreSQL would verify the model, not DAWGS (DESIGN.md section 5)",
     "C02": _NB, "C03": _NB, "C04": _NB, "C05": _NB, "C06": _NB, "C07": _NB, "C08": _NB, "C09": _NB, "C10": _NB,
-    "C11": _NB, "C18": _NB, "C20": _NB,
+    "C11": _NB, 
 }
